@@ -122,7 +122,10 @@ def planted_template(rng):
     nm = gg.names(len(letters), rng, unsorted=rng.random() < 0.3)
     rng.shuffle(nm)
     name = dict(zip(letters, nm))
-    pol = {l: rng.random() < 0.5 for l in letters}
+    # (all values at the reference polarity half of the time: several listed ID* mechanisms need a '+' somewhere, and a
+    # defect that shows on an all-'-' query cannot hide behind them)
+    minus_only = rng.random() < 0.5
+    pol = {l: (False if minus_only else rng.random() < 0.5) for l in letters}
     di = [[name[e[0]], name[e[1]]] for e in di_s.split()]
     bi = [[name[e[0]], name[e[1]]] for e in bi_s.split()]
     gd = {"nodes": sorted(nm) if rng.random() < 0.5 else nm, "di": di, "bi": bi, "hostile": "planted-template"}
